@@ -21,14 +21,31 @@ Mags == {Mag(1, 1), Mag(2, 1), Mag(1, 2)}
 Rots == {Rot0, Rot90, Rot180, Rot270, Rot345, Rot345n}
 Trans == {[mag |-> m, refl |-> f, rot |-> r] : m \in Mags, f \in BOOLEAN, r \in Rots}
 
+\* transforms applied through an element's own API (Polygon::scale with two factors, mirror about a
+\* line, rotate about a centre, transform): the element's repetition follows the linear part
+Scales2 == {[o |-> "scale", sx |-> a[1], sy |-> a[2]] : a \in {<<2, 1>>, <<1, 2>>, <<-1, 3>>, <<2, 2>>}}
+Scales1 == {[o |-> "scale", sx |-> a, sy |-> a] : a \in {2, 3}}
+Mirrors == {[o |-> "mirror", ax |-> a] : a \in {"x", "y", "d"}}
+Rotates == {[o |-> "rotate", rot |-> r] : r \in {Rot90, Rot180, Rot345}}
+Transf == {[o |-> "transform", mag |-> t[1], refl |-> t[2], rot |-> t[3]] :
+             t \in {<<Mag(1, 1), TRUE, Rot0>>, <<Mag(2, 1), FALSE, Rot90>>, <<Mag(1, 2), TRUE, Rot270>>,
+                    <<Mag(1, 1), FALSE, Rot345>>, <<Mag(2, 1), TRUE, Rot345n>>, <<Mag(1, 1), TRUE, Rot180>>}}
+ElemOps == [polygon |-> Scales2 \cup Mirrors \cup Rotates \cup Transf,
+            flexpath |-> Scales1 \cup Mirrors \cup Rotates \cup Transf,
+            robustpath |-> Scales1 \cup Mirrors \cup Rotates \cup Transf,
+            label |-> Transf, reference |-> Transf]
+
 Init == \/ \E r \in Reps : case = [k |-> "q", r |-> r]
         \/ \E r \in Reps, t \in Trans : case = [k |-> "t", r |-> r, t |-> t]
         \/ \E r \in Reps, kd \in {"polygon", "flexpath", "robustpath", "label", "reference"} :
               case = [k |-> "a", r |-> r, kind |-> kd]
+        \/ \E r \in Reps, kd \in DOMAIN ElemOps : \E op \in ElemOps[kd] :
+              case = [k |-> "e", r |-> r, kind |-> kd, op |-> op]
 Next == UNCHANGED case
 
 Laws == /\ CountLaw(case.r) /\ ZeroFirst(case.r) /\ ExtremaLaw(case.r)
         /\ case.k = "t" => TransformLaw(case.r, case.t.mag, case.t.refl, case.t.rot)
+        /\ (case.k = "e" /\ case.op.o = "scale") => ScaleLaw(case.r, case.op.sx, case.op.sy)
         \* transforms compose: transforming twice = transforming by the composition
         /\ case.k = "t" =>
              LET t == case.t
